@@ -58,6 +58,7 @@ func (g *Gen) corrupt(o *Occ) {
 	var b strings.Builder
 	w := func(format string, a ...interface{}) { fmt.Fprintf(&b, "\t"+format+"\n", a...) }
 	w("_ = path")
+	w("if o.Attrs == nil { o.Attrs = map[string]attr.Value{} } // stand-in objects of absent list elements")
 	for _, s := range o.Slots {
 		if s.Kind == SCustom {
 			continue
@@ -103,7 +104,7 @@ func (g *Gen) corruptCheck(o *Occ) {
 	}
 	var b strings.Builder
 	w := func(format string, a ...interface{}) { fmt.Fprintf(&b, "\t"+format+"\n", a...) }
-	w("_, _, _ = d, live, allMissing")
+	w("_, _, _, _ = d, live, allMissing, shared")
 	for _, s := range o.Slots {
 		if s.Kind == SCustom {
 			continue
@@ -115,25 +116,25 @@ func (g *Gen) corruptCheck(o *Occ) {
 		w(`  if wrong { vrt.Assert("C06/from/"+key+":conversion-diagnostic", nc >= 1) }`)
 		switch s.Kind {
 		case SMsg:
-			w(`  if intact { sub0, _ := tf0.Attrs[%q].(types.Object); corruptCheck_%s(d, cz, key, true, cz[key+":nilattrs"] == 1, sub0) }`, n, s.Sub.ID)
+			w(`  if intact { sub0, _ := tf0.Attrs[%q].(types.Object); corruptCheck_%s(d, cz, key, true, cz[key+":nilattrs"] == 1, sub0, shared) }`, n, s.Sub.ID)
 		case SList, SMsgList:
 			w(`  if intact { anyBad := false; c, _ := tf0.Attrs[%q].(types.List)`, n)
 			w(`    for i := 0; i < %d; i++ { ek := key + "[" + strconv.Itoa(i) + "]"; if i < len(c.Elems) && cz[ek] != 0 { anyBad = true }`, g.KL)
 			if s.Kind == SMsgList {
-				w(`      if i < len(c.Elems) && cz[ek] == 0 { e0, _ := c.Elems[i].(types.Object); corruptCheck_%s(d, cz, ek, true, false, e0) }`, s.Sub.ID)
+				w(`      if i < len(c.Elems) && cz[ek] == 0 { e0, _ := c.Elems[i].(types.Object); corruptCheck_%s(d, cz, ek, true, false, e0, true) }`, s.Sub.ID)
 			}
 			w(`    }`)
 			w(`    if anyBad { vrt.Assert("C06/from/"+key+":element-conversion-diagnostic", nc >= 1) }`)
 			if s.Kind == SList {
-				w(`    if !anyBad { vrt.Assert("C06/from/"+key+":no-diagnostic-when-intact", nc == 0 && nm == 0) }`)
+				w(`    if !anyBad && !shared { vrt.Assert("C06/from/"+key+":no-diagnostic-when-intact", nc == 0 && nm == 0) }`)
 			}
 			w(`  }`)
 		default:
-			w(`  if intact { vrt.Assert("C06/from/"+key+":no-diagnostic-when-intact", nc == 0 && nm == 0) }`)
+			w(`  if intact && !shared { vrt.Assert("C06/from/"+key+":no-diagnostic-when-intact", nc == 0 && nm == 0) }`)
 		}
 		w(`}`)
 	}
-	g.p("func corruptCheck_%s(d diag.Diagnostics, cz map[string]int, path string, live, allMissing bool, tf0 types.Object) {\n\t_ = tf0\n%s}\n", o.ID, b.String())
+	g.p("func corruptCheck_%s(d diag.Diagnostics, cz map[string]int, path string, live, allMissing bool, tf0 types.Object, shared bool) {\n\t_ = tf0\n%s}\n", o.ID, b.String())
 	for _, s := range o.Slots {
 		if s.Sub != nil && (s.Kind == SMsg || s.Kind == SMsgList) {
 			g.corruptCheck(s.Sub)
@@ -295,7 +296,7 @@ func (g *Gen) harnessCorrupt(o *Occ) {
 	vrt.CheckNoPanic("C06/from/%s:no-panic")
 	d0 := %sCopy%sFromTerraform(ctx, tf0, &p0)
 	vrt.Assert("C06/from/%s:intact-run-no-diagnostic", len(d0) == 0)
-	corruptCheck_%s(d, cz, %q, true, false, tf0)
+	corruptCheck_%s(d, cz, %q, true, false, tf0, false)
 	stillCopied_%s(&p, &p0, cz, %q)
 	vrt.Reach("CorruptFrom/%s/end")
 }
